@@ -8,10 +8,11 @@ EXPLANATION = (
     "`?`-propagated, sit at an unconditional position (top level, or the Either arm of its side), precede every use of the translation closures "
     "and the construction of the validated task; every ensure_* method of the impl is called. The inline output-predicate check on user-guide "
     "assumptions must guard the only push into user_guide_assumptions. TPL: every ensure_* body is evaluated to a term (condition, error variant, "
-    "operands) and compared with the reference term written from the property text. GRAPH: is_tight / has_private_recursion are evaluated to "
-    "terms: nodes from self.predicates(), edges head -> body.positive_predicates() (resp. all body predicates restricted to private head and "
+    "operands) and compared with the reference term written from the property text. GRAPH: is_tight / has_private_recursion are evaluated with "
+    "every graph operation recorded (loop nest, facts that hold, arguments): nodes from self.predicates(), edges head -> body.positive_predicates() (resp. all body predicates restricted to private head and "
     "body), choice heads with private predicate refuse, result (not) is_cyclic_directed; positive_predicates yields only NoSign literals. "
-    "is_regular is natural().is_some(). FLOW-READ: bypass_tightness is read only inside ensure_program_tightness.")
+    "is_regular is natural().is_some(). COLLECT: every user-guide collector (placeholders, formulas, input / output predicates) adds every entry of "
+    "its kind unconditionally. FLOW-READ: bypass_tightness is read only inside ensure_program_tightness.")
 UNDECIDED = ["exactness of petgraph::algo::is_cyclic_directed (library)", "the definition of regularity itself: decided as tables under C08"]
 ASSUMPTIONS = ["petgraph cycle detection is exact", "derived Hash/Eq on Predicate compare symbol and arity"]
 
